@@ -76,6 +76,9 @@ type SlidingWindow struct {
 	// timer for triggering window periodically (used for ProcessingTime)
 	timer       *time.Ticker
 	currentSlot *types.TimeSlot
+	// anchorSlot is the slot created from the first event while no window has
+	// fired yet (event time); see the re-anchoring in Add.
+	anchorSlot *types.TimeSlot
 	// initChan for window initialization
 	initChan    chan struct{}
 	initialized bool
@@ -201,6 +204,7 @@ func (sw *SlidingWindow) Add(data any) {
 			// For event time, align window start to window boundaries
 			alignedStart := alignWindowStart(eventTime, sw.slide)
 			sw.currentSlot = sw.createSlotFromStart(alignedStart)
+			sw.anchorSlot = sw.currentSlot
 			debugLogSliding("Add: initialized with EventTime, eventTime=%v, alignedStart=%v, window=[%v, %v)",
 				eventTime.UnixMilli(), alignedStart.UnixMilli(),
 				sw.currentSlot.Start.UnixMilli(), sw.currentSlot.End.UnixMilli())
@@ -223,6 +227,15 @@ func (sw *SlidingWindow) Add(data any) {
 			close(sw.initChan)
 		}
 		sw.initialized = true
+	}
+	// An on-time event older than the window anchored by the first event would
+	// otherwise stay buffered for ever (currentSlot only moves forward). While no
+	// window has fired yet, re-anchor the current window at that event's interval.
+	if timeChar == types.EventTime && sw.currentSlot != nil && sw.currentSlot == sw.anchorSlot &&
+		eventTime.Before(*sw.currentSlot.Start) &&
+		(sw.watermark == nil || !sw.watermark.IsEventTimeLate(eventTime)) {
+		sw.currentSlot = sw.createSlotFromStart(alignWindowStart(eventTime, sw.slide))
+		sw.anchorSlot = sw.currentSlot
 	}
 	row := types.Row{
 		Data:      data,
